@@ -61,7 +61,7 @@ func writerTrace(rng *rand.Rand, n int, maxCalls int) (rec, error) {
 	// from the final one (they all carry delta 0), the rest of the trace is observed call by call
 	{
 		wp, tp, ds := snapshot(w, set, n)
-		for k := 1; k <= 3; k++ {
+		for k := 1; k <= 3 && k <= len(ds[0]); k++ { // (as many as the writer queued: fewer than three is its business)
 			d2 := make([][]int, n)
 			for t := range d2 {
 				d2[t] = []int{}
